@@ -1,6 +1,7 @@
 package props
 
 import (
+	"regexp"
 	"strings"
 
 	"golang.org/x/tools/go/ssa"
@@ -182,7 +183,7 @@ func c07gNumUses(c *eng.Ctx) {
 			c.Violation(f, "te.NumUses store", s.Pos(), "te.NumUses is overwritten with "+eng.ExprDeep(s.Val)+": only the role's token_num_uses may replace the requested count", nil)
 		}
 	}
-	if c.Floor(f, "te.NumUses = role.TokenNumUses", len(st), 2) {
+	if c.Floor(f, "te.NumUses = role.TokenNumUses", len(st), 1) {
 		c.Cut(f, "te.NumUses = role.TokenNumUses", st, eng.G(f, `^role\.TokenParams\.TokenNumUses == 0$`, false), nil)
 		c.Cut(f, "te.NumUses = role.TokenNumUses", st, eng.Or(
 			eng.G(f, `^&te\.NumUses == 0$`, true),
@@ -369,4 +370,159 @@ func c07gRenew(c *eng.Ctx) {
 			c.OK(f, "role-less token renewed under its own "+b.fld, f.Pos(), "on the Role == \"\" edge every response passes req.Auth."+b.fld+" = te."+b.fld)
 		}
 	}
+}
+
+// ---------------------------------------------------------------------------
+// helpers shared with c07.go: forwarding closures and an extracted root guard
+
+// c07gFwd: v is a call satisfying pred, or a call of a closure of the same
+// function all of whose returns are such calls (hasSudoOn := func(p string)
+// bool { return view.SudoPrivilege(ctx, p, tok) }).
+func c07gFwd(v ssa.Value, pred func(*ssa.Call) bool, depth int) bool {
+	cl, ok := v.(*ssa.Call)
+	if !ok || depth > 2 {
+		return false
+	}
+	if pred(cl) {
+		return true
+	}
+	var g *ssa.Function
+	switch x := cl.Call.Value.(type) {
+	case *ssa.MakeClosure:
+		g, _ = x.Fn.(*ssa.Function)
+	case *ssa.Function:
+		if x.Parent() != nil {
+			g = x
+		}
+	}
+	if g == nil {
+		return false
+	}
+	rets := eng.Returns(g)
+	if len(rets) == 0 {
+		return false
+	}
+	for _, r := range rets {
+		if len(r.Results) != 1 || !c07gFwd(r.Results[0], pred, depth+1) {
+			return false
+		}
+	}
+	return true
+}
+
+// c07gFwdCondEdges: the edges of the branches of f whose condition is (the
+// negation of) such a call, on which the call's result is want.
+func c07gFwdCondEdges(f *ssa.Function, pred func(*ssa.Call) bool, want bool) []eng.Edge {
+	var out []eng.Edge
+	for _, b := range f.Blocks {
+		ifi := eng.IfOf(b)
+		if ifi == nil {
+			continue
+		}
+		nc := eng.Normalize(ifi.Cond)
+		if !c07gFwd(nc.Val, pred, 0) {
+			continue
+		}
+		succ := 1
+		if nc.Pol == want {
+			succ = 0
+		}
+		out = append(out, eng.Edge{From: b, Succ: succ})
+	}
+	return out
+}
+
+func c07gIsSudoCall(cl *ssa.Call) bool {
+	return strings.HasSuffix(eng.CalleeName(&cl.Call), "extendedSystemView>.SudoPrivilege")
+}
+
+// c07gIsNonAssignableTest: slices.Contains(policy.NonAssignablePolicies, x).
+func c07gIsNonAssignableTest(cl *ssa.Call) bool {
+	if !strings.HasPrefix(eng.CalleeName(&cl.Call), "slices.Contains[") || len(cl.Call.Args) != 2 {
+		return false
+	}
+	ok, _, _ := eng.OriginsMatch(cl.Call.Args[0], `^global:policy\.NonAssignablePolicies$`)
+	return ok
+}
+
+// c07gIsTokenPolicies: v is append(X, …) where X is auth.TokenPolicies or the
+// very value stored into a TokenPolicies field in f.
+func c07gIsTokenPolicies(f *ssa.Function, v ssa.Value) bool {
+	ap, ok := v.(*ssa.Call)
+	if !ok || eng.CalleeName(&ap.Call) != "append" || len(ap.Call.Args) == 0 {
+		return false
+	}
+	x := ap.Call.Args[0]
+	if strings.HasSuffix(eng.Expr(x), ".TokenPolicies") {
+		return true
+	}
+	for _, st := range eng.Stores(f, `\.TokenPolicies$`) {
+		if st.Val == x {
+			return true
+		}
+	}
+	return false
+}
+
+// c07gRootGuardInHelper: the root guard of handleCreateCommon extracted into a
+// function of the same package that is handed &te and the parent entry. The
+// helper must refuse (some non-nil result) unless te has no root policy, or the
+// parent has it and the type is not batch; ts.create must lie behind the
+// all-nil results of the call, and te.Policies must not be stored after it.
+func c07gRootGuardInHelper(c *eng.Ctx, f *ssa.Function, create, polSt []ssa.Instruction, batch string) bool {
+	var teAlloc ssa.Value
+	for _, st := range polSt {
+		if fa, ok := st.(*ssa.Store).Addr.(*ssa.FieldAddr); ok {
+			teAlloc = fa.X
+		}
+	}
+	if teAlloc == nil {
+		return false
+	}
+	found := false
+	for _, cs := range eng.Calls(f, `^vault\.`) {
+		h := cs.Common().StaticCallee()
+		if h == nil || h.Pkg != f.Pkg || len(h.Blocks) == 0 {
+			continue
+		}
+		iT, iP := -1, -1
+		for i, a := range cs.Common().Args {
+			if a == teAlloc {
+				iT = i
+			} else if ok, _, _ := eng.OriginsMatch(a, `^call:vault\.\(\*TokenStore\)\.Lookup#0$`); ok {
+				iP = i
+			}
+		}
+		if iT < 0 || iP < 0 || iT >= len(h.Params) || iP >= len(h.Params) {
+			continue
+		}
+		tn, pn := regexp.QuoteMeta(eng.VarName(h.Params[iT])), regexp.QuoteMeta(eng.VarName(h.Params[iP]))
+		teRoot := eng.GD(h, `^slices\.Contains\[.*\]\(`+tn+`\.Policies, "root"\)$`, false)
+		if len(teRoot.Edges) == 0 {
+			continue
+		}
+		found = true
+		var pass []ssa.Instruction
+		for _, r := range eng.Returns(h) {
+			all := len(r.Results) > 0
+			for _, v := range r.Results {
+				all = all && eng.IsNilConst(v)
+			}
+			if all {
+				pass = append(pass, r)
+			}
+		}
+		c.Clause("R2", "C07.4")
+		if c.Floor(h, "returns of the extracted root guard that let creation proceed", len(pass), 1) {
+			c.Cut(h, "root guard passes", pass, eng.Or(teRoot, eng.GD(h, `^slices\.Contains\[.*\]\(`+pn+`\.Policies, "root"\)$`, true)), nil)
+			c.Cut(h, "root guard passes", pass, eng.Or(teRoot, eng.G(h, `^`+tn+`\.Type == `+batch+`$`, false)), nil)
+		}
+		name := regexp.QuoteMeta(eng.CalleeName(cs.Common()))
+		for i := 0; i < h.Signature.Results().Len(); i++ {
+			c.Cut(f, "ts.create", create, eng.G(f, `^`+name+`\(\)#`+string(rune('0'+i))+` == nil$`, true), nil)
+		}
+		c.Clause("R3", "C07.4")
+		c.NotAfter(f, "the root-policy check", []ssa.Instruction{cs}, "store to te.Policies", polSt)
+	}
+	return found
 }
